@@ -21,15 +21,65 @@ func init() {
 }
 
 // ---- Gallina printers ----
+// optCanon, when set, replaces the payload of an option by a canonical form (C01: IA_PD)
+var optCanon func(o dhcpv6.Option) ([]byte, bool)
+
 func vOpts6(opts dhcpv6.Options, skipRelayMsg bool) string {
 	items := []string{}
 	for _, o := range opts {
 		if skipRelayMsg && o.Code() == dhcpv6.OptionRelayMsg {
 			continue
 		}
+		if optCanon != nil {
+			if b, ok := optCanon(o); ok {
+				items = append(items, fmt.Sprintf("(%d, %s)", uint16(o.Code()), vBytes(b)))
+				continue
+			}
+		}
 		items = append(items, fmt.Sprintf("(%d, %s)", uint16(o.Code()), vBytes(o.ToBytes())))
 	}
-	return vList(items)
+	return vListRuns(items)
+}
+
+// vListRuns prints a list, runs of 16 or more identical items as `repeat item n` (a zero-padded
+// datagram parses into thousands of empty options; Coq elaborates long list literals slowly)
+func vListRuns(items []string) string {
+	long := false
+	for i := 0; i < len(items); {
+		j := i
+		for j < len(items) && items[j] == items[i] {
+			j++
+		}
+		if j-i >= 16 {
+			long = true
+		}
+		i = j
+	}
+	if !long {
+		return vList(items)
+	}
+	parts := []string{}
+	cur := []string{}
+	for i := 0; i < len(items); {
+		j := i
+		for j < len(items) && items[j] == items[i] {
+			j++
+		}
+		if j-i >= 16 {
+			if len(cur) > 0 {
+				parts = append(parts, vList(cur))
+				cur = nil
+			}
+			parts = append(parts, fmt.Sprintf("repeat %s (N.to_nat %d)", items[i], j-i))
+		} else {
+			cur = append(cur, items[i:j]...)
+		}
+		i = j
+	}
+	if len(cur) > 0 {
+		parts = append(parts, vList(cur))
+	}
+	return "(" + strings.Join(parts, " ++ ") + ")"
 }
 
 func vIMsg(m *dhcpv6.Message) string {
